@@ -96,36 +96,74 @@ def ddmin(prop, seed, ops, knobs, klass, budget=300):
     return cur, runs
 
 
+SHRINK_SKIP_KEYS = {"id", "op", "h", "x", "out", "outs", "hs", "maps", "src", "tgt", "path", "game", "io", "knobs", "conv", "cls", "how",
+                    "fmt", "path_type", "layout", "key", "retry_of", "prop"}
+
+
+def _candidates(v, path=()):
+    """Structural simplifications of an op argument: (path, action) pairs.
+    action: ('del', i) on lists, ('delkey', k) on dicts named meta, ('zero', None) on note-row strings."""
+    if isinstance(v, list):
+        for i in range(len(v) - 1, -1, -1):
+            yield path, ("del", i)
+        for i, x in enumerate(v):
+            yield from _candidates(x, path + (i,))
+    elif isinstance(v, dict):
+        for k, x in v.items():
+            if path == () and k in SHRINK_SKIP_KEYS:
+                continue
+            if path and path[-1] == "meta":
+                yield path, ("delkey", k)
+            yield from _candidates(x, path + (k,))
+    elif isinstance(v, str) and path and len(v) >= 3 and set(v) <= set("01234MLFK") and set(v) != {"0"}:
+        yield path, ("zero", None)
+
+
+def _apply(op, path, action):
+    cur = op
+    for k in path[:-1] if action[0] == "zero" else path:
+        cur = cur[k]
+    if action[0] == "del":
+        if not isinstance(cur, list) or action[1] >= len(cur):
+            return False
+        del cur[action[1]]
+    elif action[0] == "delkey":
+        if action[1] not in cur:
+            return False
+        del cur[action[1]]
+    else:
+        k = path[-1]
+        cur[k] = "0" * len(cur[k])
+    return True
+
+
 def _shrink_rows(prop, seed, ops, knobs, klass, budget):
-    """Remove rows from constructed lists one at a time."""
+    """Structural shrinking of op arguments (rows of constructed lists, charts / measures / rows /
+    tempo entries / header keys of generated files), greedy, to a fixed point or the budget."""
     runs = 0
     changed = True
     while changed and runs < budget:
         changed = False
-        for oi, op in enumerate(ops):
-            targets = []
-            if op["op"] == "list.new" and op.get("rows"):
-                targets.append(("rows", None))
-            if op["op"] == "map.new":
-                for k, rows in op.get("lists", {}).items():
-                    if rows:
-                        targets.append(("lists", k))
-            if op["op"] in ("fs.install",) and isinstance(op.get("doc"), dict):
-                pass
-            for a, b in targets:
-                rows = op[a] if b is None else op[a][b]
-                i = 0
-                while i < len(rows) and runs < budget:
+        for oi in range(len(ops)):
+            if ops[oi]["op"] not in ("list.new", "map.new", "fs.install", "twin.compare", "mapset.new"):
+                continue
+            progress = True
+            while progress and runs < budget:
+                progress = False
+                for path, action in list(_candidates(ops[oi])):
+                    if runs >= budget:
+                        break
                     cand = copy.deepcopy(ops)
-                    crow = cand[oi][a] if b is None else cand[oi][a][b]
-                    del crow[i]
+                    try:
+                        if not _apply(cand[oi], path, action):
+                            continue
+                    except (KeyError, IndexError, TypeError):
+                        continue
                     runs += 1
                     if _fails(prop, seed, cand, knobs, klass):
                         ops = cand
-                        rows = crow
-                        changed = True
-                    else:
-                        i += 1
+                        changed = progress = True
+                        break
     return ops, runs
 
 
